@@ -199,6 +199,17 @@ def inline_procedures(body, func, prog, depth=0):
     out = []
     for st in body:
         done = False
+        if isinstance(st, ast.Return) and isinstance(st.value, ast.Call):
+            h, mapping = _private_callee(st.value, func, prog)
+            if h is not None and h is not func:
+                hb = [x for x in h.body if not (isinstance(x, ast.Expr) and isinstance(x.value, ast.Constant))]
+                multi = len(hb) > 1 and not any(isinstance(x, (ast.Yield, ast.YieldFrom)) for x in walk_own(hb))
+                if multi and always_exits(hb):
+                    new = _subst_body(hb, mapping, suffix=f"__{h.name}")
+                    out.extend(inline_procedures(new, func, prog, depth + 1))
+                    done = True
+        if done:
+            continue
         if isinstance(st, ast.Expr) and isinstance(st.value, ast.Call) and isinstance(st.value.func, ast.Name):
             r = prog.resolve_in(func, st.value.func.id)
             if r and r[0] == "func" and r[1].module is func.module and not r[1].decorators and r[1] is not func:
@@ -241,6 +252,97 @@ def inline_procedures(body, func, prog, depth=0):
     return out
 
 
+def _private_callee(call, func, prog):
+    """(helper Func, param->arg mapping) for a call to a private helper of the
+    same module / class (name starts with '_', not a dunder), else (None, None)."""
+    target = None
+    skip = 0
+    if isinstance(call.func, ast.Name) and call.func.id.startswith("_"):
+        r = prog.resolve_in(func, call.func.id)
+        if r and r[0] == "func" and r[1].module is func.module and not r[1].decorators:
+            target = r[1]
+    elif isinstance(call.func, ast.Attribute) and isinstance(call.func.value, ast.Name) and func.cls is not None \
+            and call.func.attr.startswith("_") and not call.func.attr.startswith("__"):
+        recv = call.func.value.id
+        got = func.cls.lookup(call.func.attr)
+        if got and got[0] == "method" and recv in (func.self_param(), func.cls.name, "self", "cls"):
+            target = got[1]
+            skip = 0 if target.kind == "staticmethod" else 1
+    if target is None or any(isinstance(a, ast.Starred) for a in call.args) or any(k.arg is None for k in call.keywords):
+        return None, None
+    params = list(target.params)[skip:]
+    if len(call.args) > len([p for p in params if p.kind in ("pos", "posonly")]):
+        return None, None
+    mapping = {}
+    for p, a in zip(params, call.args):
+        mapping[p.name] = a
+    for k in call.keywords:
+        mapping[k.arg] = k.value
+    for p in params:
+        if p.name not in mapping:
+            if p.default is None:
+                return None, None
+            mapping[p.name] = p.default
+    if skip:
+        mapping[target.params[0].name] = call.func.value
+    return target, mapping
+
+
+def _subst_body(stmts, mapping, suffix=""):
+    """Deep copy of stmts with parameter loads replaced by argument
+    expressions and the helper's own locals renamed (suffix)."""
+    stmts = copy.deepcopy(stmts)
+    local_names = set()
+    for n in walk_own(stmts):
+        if isinstance(n, ast.Name) and isinstance(n.ctx, ast.Store) and n.id not in mapping:
+            local_names.add(n.id)
+
+    class Sub(ast.NodeTransformer):
+        def visit_Name(self, node):
+            if node.id in mapping and isinstance(node.ctx, ast.Load):
+                return copy.deepcopy(mapping[node.id])
+            if node.id in local_names and suffix:
+                return ast.copy_location(ast.Name(id=node.id + suffix, ctx=node.ctx), node)
+            return node
+    out = [Sub().visit(x) for x in stmts]
+    for x in out:
+        ast.fix_missing_locations(x)
+    return out
+
+
+def inline_single_returns(body, func, prog):
+    """Replace calls to private single-`return` helpers by the returned
+    expression (parameters substituted), anywhere in the body."""
+    class T(ast.NodeTransformer):
+        def __init__(self):
+            self.depth = 0
+
+        def visit_Call(self, node):
+            self.generic_visit(node)
+            if self.depth > 3:
+                return node
+            h, mapping = _private_callee(node, func, prog)
+            if h is None or h is func:
+                return node
+            hb = [x for x in h.body if not (isinstance(x, ast.Expr) and isinstance(x.value, ast.Constant))]
+            if len(hb) > 1:
+                hb = inline_aliases(hb, [p.name for p in h.params])
+            if len(hb) == 1 and isinstance(hb[0], ast.Return) and hb[0].value is not None:
+                self.depth += 1
+                new = _subst_body([ast.Expr(value=hb[0].value)], mapping)[0].value
+                new = self.visit(new)
+                self.depth -= 1
+                return new
+            return node
+
+        def visit_FunctionDef(self, node):
+            return node
+    out = [T().visit(x) for x in body]
+    for x in out:
+        ast.fix_missing_locations(x)
+    return out
+
+
 _nbody_cache = {}
 
 
@@ -256,6 +358,7 @@ def nbody(func, prog=None, keep=()):
     body = copy.deepcopy(body)
     if prog is not None:
         body = inline_procedures(body, func, prog)
+        body = inline_single_returns(body, func, prog)
     body = inline_aliases(body, [p.name for p in func.params], keep=keep)
     cache[key] = body
     return body
